@@ -1,3 +1,4 @@
 from propcfg.tmplcommon import *
 
-CFG = TMPL_C02
+CFG = dict(TMPL_C02)
+CFG["proof_modules"] = ["SafeHtml.Proofs.CharRefEsc"]
